@@ -821,7 +821,7 @@ impl Runner {
             ["@", "fident", ty, a] => fident_line(ty, a),
             ["@", "user", rest @ ..] => user::run(rest),
             ["@", "userw", rest @ ..] => user::run_wrapping(rest),
-            ["@", cmd @ ("trop" | "trsc" | "trneg" | "trpow" | "recop" | "recsc" | "recneg" | "recpow" | "freal" | "trreal" | "recreal"), rest @ ..] => {
+            ["@", cmd @ ("trop" | "trsc" | "trneg" | "trpow" | "recop" | "recsc" | "recneg" | "recsw" | "recpow" | "freal" | "trreal" | "recreal"), rest @ ..] => {
                 wrap::run(cmd, rest)
             }
             _ => "bad-op".into(),
